@@ -14,6 +14,11 @@ use crate::{
 
 const TIMEOUT_DURATION_ON_ERROR: Duration = Duration::from_millis(510);
 
+#[cfg(actix_net_verif)]
+pub(crate) mod verif {
+    include!(concat!(env!("ACTIX_NET_VERIF_DIR"), "/accept_verif.rs"));
+}
+
 struct ServerSocketInfo {
     token: usize,
 
